@@ -23,6 +23,18 @@ CHECKS = {
    text="generated (value, following value, trailing bytes) reference-encoded and skipped by every sync and async skipper standing alone and in field position; reported count, position and the following value are compared with the reference; nesting 1..81 through struct/list/map/set hops checked against the documented limit; 1e3..2e5-level chains in a 2 MiB-stack child process",
    note="61..65 levels accepted either way; the iterative unchecked skipper may skip exactly or refuse with DepthLimit",
    tech=PBT + "; reference-length oracle, metamorphic 'following value unaffected', enumerated depths, crash-isolated child for stack exhaustion"),
+ "C09": dict(cat="fault_enumeration",
+   text="random bytes and single-fault mutants (truncation, bit flip, length/count/id marks overwritten with boundary values, type bytes) of reference encodings fed to the generic reader, skip, envelope and TApplicationException decoders, sync and async, binary/LE/compact, under panic capture, a counting allocator (bound 1 MiB + 4096 x input) and a deterministic poll budget; strict prefixes of struct encodings must be rejected",
+   note="runtime part in-process; a wall-clock watchdog is not used, async non-termination is decided by poll counts",
+   tech=PBT + "; structured fault injection located through reference-encoder marks; oracle: no panic / bounded allocation / bounded polls"),
+ "C11": dict(cat="exploration",
+   text="unchecked writer in an exact-size canary-guarded region (BytesMut pre-sized; LinkedBytes spare capacity, zero-copy off/on) compared byte for byte and position for position with the checked writer; unchecked reader compared with the checked reader on reference bytes including reader schemas that skip arbitrary field subsets",
+   note="only inputs inside the unchecked codec's documented contract are generated (complete well-formed encodings, output region >= reported size)",
+   tech=PBT + "; differential oracle checked vs unchecked codec, guard bytes"),
+ "C12": dict(cat="exploration",
+   text="async decode under generated delivery schedules (whole, bytewise, every single split point of short messages, scripted chunks with Pending) compared with the in-memory decode of the same bytes (valid, truncated, bit-flipped, type-corrupted); values equal, errors agree, bytes taken from the stream equal bytes consumed in memory",
+   note="schedules are owned by a scripted AsyncRead and a single-thread executor; inputs that enlarge length fields are C09's subject and excluded (counted)",
+   tech=PBT + "; differential oracle sync vs async over generated schedules, exhaustive split points for short messages"),
 }
 ORDER = sorted(CHECKS)
 checks = []
